@@ -1,5 +1,107 @@
+import BlockCiphers.Proofs.AriaSpec
+import BlockCiphers.Proofs.CamelliaSpec
+import BlockCiphers.Proofs.Sm4Spec
 /-
-C06 — theorem file (property theorems only).  Filled in as the models it needs are merged; see DESIGN §7 C06.
+C06 — ARIA, Camellia and SM4 conform to RFC 5794, RFC 3713 and GB/T 32907
+GENERATED statement file (tools/gen_thm.py): every theorem below restates, verbatim, a theorem of a Proofs/ module
+and is proved by applying it.  ONLY property theorems and non-vacuity examples live in Thm/.
 -/
-namespace BC.Thm.C06
-end BC.Thm.C06
+
+namespace BC.Aria
+open BC.Spec.Aria (A SL1 SL2 FO FE concat byteOf)
+theorem C06.encrypt128_eq_spec (K b : BitVec 128) : encrypt128 K b = Spec.Aria.encrypt128 K b :=
+  _root_.BC.Aria.encrypt128_eq_spec K b
+end BC.Aria
+
+namespace BC.Aria
+open BC.Spec.Aria (A SL1 SL2 FO FE concat byteOf)
+theorem C06.decrypt128_eq_spec (K b : BitVec 128) : decrypt128 K b = Spec.Aria.decrypt128 K b :=
+  _root_.BC.Aria.decrypt128_eq_spec K b
+end BC.Aria
+
+namespace BC.Aria
+open BC.Spec.Aria (A SL1 SL2 FO FE concat byteOf)
+theorem C06.encrypt192_eq_spec (K : BitVec 192) (b : BitVec 128) : encrypt192 K b = Spec.Aria.encrypt192 K b :=
+  _root_.BC.Aria.encrypt192_eq_spec K b
+end BC.Aria
+
+namespace BC.Aria
+open BC.Spec.Aria (A SL1 SL2 FO FE concat byteOf)
+theorem C06.decrypt192_eq_spec (K : BitVec 192) (b : BitVec 128) : decrypt192 K b = Spec.Aria.decrypt192 K b :=
+  _root_.BC.Aria.decrypt192_eq_spec K b
+end BC.Aria
+
+namespace BC.Aria
+open BC.Spec.Aria (A SL1 SL2 FO FE concat byteOf)
+theorem C06.encrypt256_eq_spec (K : BitVec 256) (b : BitVec 128) : encrypt256 K b = Spec.Aria.encrypt256 K b :=
+  _root_.BC.Aria.encrypt256_eq_spec K b
+end BC.Aria
+
+namespace BC.Aria
+open BC.Spec.Aria (A SL1 SL2 FO FE concat byteOf)
+theorem C06.decrypt256_eq_spec (K : BitVec 256) (b : BitVec 128) : decrypt256 K b = Spec.Aria.decrypt256 K b :=
+  _root_.BC.Aria.decrypt256_eq_spec K b
+end BC.Aria
+
+namespace BC.Camellia
+open BC.Spec.Camellia (F FL FLINV hi64 lo64 join rotHi rotLo computeKA computeKB Subkeys subkeys128
+  subkeys256 MASK8 MASK32 MASK64 sbox1 sbox2 sbox3 sbox4)
+theorem C06.camellia_encrypt128_eq_spec (K b : BitVec 128) : encrypt128 K b = Spec.Camellia.encrypt128 K b :=
+  _root_.BC.Camellia.encrypt128_eq_spec K b
+end BC.Camellia
+
+namespace BC.Camellia
+open BC.Spec.Camellia (F FL FLINV hi64 lo64 join rotHi rotLo computeKA computeKB Subkeys subkeys128
+  subkeys256 MASK8 MASK32 MASK64 sbox1 sbox2 sbox3 sbox4)
+theorem C06.camellia_decrypt128_eq_spec (K b : BitVec 128) : decrypt128 K b = Spec.Camellia.decrypt128 K b :=
+  _root_.BC.Camellia.decrypt128_eq_spec K b
+end BC.Camellia
+
+namespace BC.Camellia
+open BC.Spec.Camellia (F FL FLINV hi64 lo64 join rotHi rotLo computeKA computeKB Subkeys subkeys128
+  subkeys256 MASK8 MASK32 MASK64 sbox1 sbox2 sbox3 sbox4)
+theorem C06.camellia_encrypt192_eq_spec (K : BitVec 192) (b : BitVec 128) : encrypt192 K b = Spec.Camellia.encrypt192 K b :=
+  _root_.BC.Camellia.encrypt192_eq_spec K b
+end BC.Camellia
+
+namespace BC.Camellia
+open BC.Spec.Camellia (F FL FLINV hi64 lo64 join rotHi rotLo computeKA computeKB Subkeys subkeys128
+  subkeys256 MASK8 MASK32 MASK64 sbox1 sbox2 sbox3 sbox4)
+theorem C06.camellia_decrypt192_eq_spec (K : BitVec 192) (b : BitVec 128) : decrypt192 K b = Spec.Camellia.decrypt192 K b :=
+  _root_.BC.Camellia.decrypt192_eq_spec K b
+end BC.Camellia
+
+namespace BC.Camellia
+open BC.Spec.Camellia (F FL FLINV hi64 lo64 join rotHi rotLo computeKA computeKB Subkeys subkeys128
+  subkeys256 MASK8 MASK32 MASK64 sbox1 sbox2 sbox3 sbox4)
+theorem C06.camellia_encrypt256_eq_spec (K : BitVec 256) (b : BitVec 128) : encrypt256 K b = Spec.Camellia.encrypt256 K b :=
+  _root_.BC.Camellia.encrypt256_eq_spec K b
+end BC.Camellia
+
+namespace BC.Camellia
+open BC.Spec.Camellia (F FL FLINV hi64 lo64 join rotHi rotLo computeKA computeKB Subkeys subkeys128
+  subkeys256 MASK8 MASK32 MASK64 sbox1 sbox2 sbox3 sbox4)
+theorem C06.camellia_decrypt256_eq_spec (K : BitVec 256) (b : BitVec 128) : decrypt256 K b = Spec.Camellia.decrypt256 K b :=
+  _root_.BC.Camellia.decrypt256_eq_spec K b
+end BC.Camellia
+
+namespace BC.Sm4
+open BC.Spec
+/-- C06 (SM4): the crate's encryption is GB/T 32907-2016 encryption, for every key and block -/
+theorem C06.sm4_encrypt_eq_spec (MK X : BitVec 128) : encrypt (new MK) X = Spec.Sm4.encrypt MK X :=
+  _root_.BC.Sm4.encrypt_eq_spec MK X
+end BC.Sm4
+
+namespace BC.Sm4
+open BC.Spec
+/-- C06 (SM4): the crate's decryption is GB/T 32907-2016 decryption -/
+theorem C06.sm4_decrypt_eq_spec (MK Y : BitVec 128) : decrypt (new MK) Y = Spec.Sm4.decrypt MK Y :=
+  _root_.BC.Sm4.decrypt_eq_spec MK Y
+end BC.Sm4
+
+namespace BC.Sm4
+open BC.Spec
+/-- `CK[i]` bytes are `(4i + j) · 7 mod 256` -/
+theorem C06.CK_eq : ∀ i : Fin 32, CK.getD i.val 0 = Spec.Sm4.CK i.val :=
+  _root_.BC.Sm4.CK_eq
+end BC.Sm4
